@@ -81,7 +81,9 @@ func run(c *core.Ctx) {
 	for flags := 0; flags < 16; flags++ {
 		for _, pol := range policies {
 			for _, co := range coStates {
-				kid := map[string]interface{}{"prins": []string{"alice"}, "transID": fmt.Sprintf("tx%d", flags), "reqUser": "u", "reqIP": "1.2.3.4", "reqHost": "h",
+				// transaction ids as they come: lower-case hex (what the RA generates), upper-case hex, mixed, other text
+				tid := []string{fmt.Sprintf("tx%d", flags), "22DDE224", "00aaBBcc", "DEADBEEF00", "a1b2c3d4e5", "ABCDEF", "Tx-9F"}[(flags+int(pol&7))%7]
+				kid := map[string]interface{}{"prins": []string{"alice"}, "transID": tid, "reqUser": "u", "reqIP": "1.2.3.4", "reqHost": "h",
 					"isFirefighter": flags&1 != 0, "isHWKey": flags&2 != 0, "isHeadless": flags&4 != 0, "isNonce": flags&8 != 0,
 					"usage": flags % 2, "touchPolicy": pol, "ver": 1}
 				b, _ := json.Marshal(kid)
@@ -110,7 +112,7 @@ func run(c *core.Ctx) {
 	}
 	// random consistent KeyIDs produced by the real encoder with random strings
 	for i, n := 0, c.N(150, 5000); i < n; i++ {
-		k := &keyid.KeyID{Principals: core.GenTextList(r, 3), TransID: core.GenText(r), ReqUser: core.GenText(r), ReqIP: core.GenText(r), ReqHost: core.GenText(r),
+		k := &keyid.KeyID{Principals: core.GenTextList(r, 3), TransID: core.Pick(r, core.GenText(r), core.GenText(r), "22DDE224", "9FA0", "AbCdEf0123"), ReqUser: core.GenText(r), ReqIP: core.GenText(r), ReqHost: core.GenText(r),
 			Version: 1, TouchPolicy: keyid.TouchPolicy(r.Intn(5)), Usage: keyid.Usage(r.Intn(2))}
 		switch r.Intn(5) {
 		case 0:
